@@ -110,6 +110,9 @@ func genHistory(r *rand.Rand, o histOpts) *plan.Plan {
 			evs = append(evs, e.Raw)
 		}
 		ix.n += ne
+		if r.IntN(3) == 0 {
+			evs = dropColumnsFromBatch(r, evs)
+		}
 		inc.Ops = append(inc.Ops, plan.Op{Kind: "ingest", Index: ix.name, Events: evs})
 		switch x := r.IntN(10); {
 		case x < 4:
@@ -468,4 +471,77 @@ var stdComponents = map[string]string{
 	"telemetry (ssa)":       "stub (empty body)",
 	"blob store / S3 / enterprise hooks": "not run",
 	"process crash":         "real _exit of a real child process",
+}
+
+// dropColumnsFromBatch removes one to three top-level fields (never the id or the timestamp) from every event of
+// a batch: a column that earlier blocks of the segment hold is then absent from a whole later block - not merely
+// sparse inside it.
+func dropColumnsFromBatch(r *rand.Rand, evs []json.RawMessage) []json.RawMessage {
+	type kv struct {
+		k string
+		v json.RawMessage
+	}
+	parse := func(raw json.RawMessage) []kv {
+		dec := json.NewDecoder(strings.NewReader(string(raw)))
+		if t, err := dec.Token(); err != nil || t != json.Delim('{') {
+			return nil
+		}
+		var out []kv
+		for dec.More() {
+			t, err := dec.Token()
+			if err != nil {
+				return nil
+			}
+			k, _ := t.(string)
+			var v json.RawMessage
+			if err := dec.Decode(&v); err != nil {
+				return nil
+			}
+			out = append(out, kv{k, v})
+		}
+		return out
+	}
+	if len(evs) == 0 {
+		return evs
+	}
+	first := parse(evs[0])
+	var cands []string
+	for _, f := range first {
+		if f.k != "vid" && f.k != "timestamp" {
+			cands = append(cands, f.k)
+		}
+	}
+	if len(cands) == 0 {
+		return evs
+	}
+	drop := map[string]bool{}
+	for i := 0; i < 1+r.IntN(3); i++ {
+		drop[cands[r.IntN(len(cands))]] = true
+	}
+	out := make([]json.RawMessage, 0, len(evs))
+	for _, raw := range evs {
+		fs := parse(raw)
+		if fs == nil {
+			out = append(out, raw)
+			continue
+		}
+		var sb strings.Builder
+		sb.WriteByte('{')
+		n := 0
+		for _, f := range fs {
+			if drop[f.k] {
+				continue
+			}
+			if n > 0 {
+				sb.WriteByte(',')
+			}
+			n++
+			sb.WriteString(jsonStr(f.k))
+			sb.WriteByte(':')
+			sb.Write(f.v)
+		}
+		sb.WriteByte('}')
+		out = append(out, json.RawMessage(sb.String()))
+	}
+	return out
 }
